@@ -16,7 +16,8 @@ RULE = ('Reference generator + E1: wire frames built from the grammar with '
         'T S x, V and 0x00, unsorted keys (all permutations of 4), non-UTF-8 '
         'long strings, unused flag bit, continuation flag word, foreign '
         'class id / weight, values the send-side validators refuse, every '
-        'method class x <=1-deviation vectors. Each frame is decoded by the '
+        'method class x <=1-deviation vectors, and the dense interior sweeps '
+        'of C01 reference-encoded. Each frame is decoded by the '
         'independent reference decoder and by the library; a case is one '
         'wire frame (or value encoding); non-trivial = all.')
 BOUNDS = {'quick': {'tags_8bit': 'all 256', 'tags_16bit': 'all 65536',
@@ -43,6 +44,7 @@ def tasks(tier, seed):
     out += [('wide',), ('payloads',), ('strings',), ('unsorted',),
             ('timestamps',), ('headers',), ('invalid-on-send',), ('nested',)]
     out += [('methods', m.name) for m in spec_table.METHODS]
+    out += [('dense',) + t for t in corpus.dense_tasks(tier)]
     return out
 
 
@@ -371,6 +373,14 @@ def run(task, ctx):
                 check_value(ctx, vb, 'nesting depth %d %s' % (depth, pattern))
         rich = refcodec.enc_value(A.rich_table())
         check_value(ctx, rich, 'rich table')
+    elif kind == 'dense':
+        # interior values: the reference-encoded dense sweeps of C01
+        for m, vec, ch in corpus.dense_cases(task[1:], ctx.tier):
+            data, _f = refcodec.enc_method_frame(m, vec, ch)
+            ctx.case(('f', data), True, sample=lambda: {
+                'method': m.name, 'vec': short(list(vec), 100),
+                'dense': task[1]})
+            check_frame(ctx, data, m.name + ' (dense ' + task[1] + ')')
     elif kind == 'methods':
         m = spec_table.BY_NAME[task[1]]
         maxdev = 2 if ctx.tier == 'thorough' else 1
